@@ -123,6 +123,11 @@ def mutations(M, rng):
     m["exts"] = [e for e in m["exts"] if e["name"] != M["query"]]
     out.append(("no-query-root", m, {}))
     m = clone(); m["mutation"] = "GhostMutation"; out.append(("undefined-mutation-root", m, {"force_schema_def": True}))
+    # an undefined root that carries the DEFAULT name of another operation (mutation: Subscription ...)
+    defined = {d["name"] for d in M["defs"]}
+    for op_, nm_ in (("mutation", "Subscription"), ("mutation", "Query"), ("subscription", "Mutation")):
+        if nm_ not in defined:
+            m = clone(); m[op_] = nm_; out.append((f"undefined-{op_}-root/default-name-of-another", m, {"force_schema_def": True}))
     # empty object
     cand = [d for d in objs if d["name"] not in (M["query"], M["mutation"], M["subscription"])]
     if cand:
@@ -296,7 +301,6 @@ def sync_impl(style):
 _uid = itertools.count()
 async def try_build(M, opts, seed):
     from tartiflette import create_engine, Scalar, Directive
-    from tartiflette.schema.registry import SchemaRegistry
     name = f"c12_{seed}_{next(_uid)}"
     for d in M["defs"]:
         if d["kind"] == "scalar" and d["name"] not in opts.get("withhold", []):
@@ -317,7 +321,7 @@ async def try_build(M, opts, seed):
         except Exception as e: reg_error = e
     chunks = c11.sdl_chunks(M)
     if opts.get("force_schema_def") and not any(c.startswith("schema {") for c in chunks):
-        chunks.append("schema { query: " + M["query"] + (f" mutation: {M['mutation']}" if M["mutation"] else "") + " }")
+        chunks.append("schema { query: " + M["query"] + (f" mutation: {M['mutation']}" if M["mutation"] else "") + (f" subscription: {M['subscription']}" if M.get("subscription") else "") + " }")
     sdl = opts.get("raw_sdl") or "\n".join(chunks)
     try:
         e = await create_engine(sdl, schema_name=name)
